@@ -2,15 +2,17 @@
 (* Model regression: with the deviation switched on, TLC must find the connection whose
    peeked bytes are lost (a detector-less service listed after a detector).        *)
 EXTENDS Integers, Sequences, TLC
-VARIABLES conn, phase, idx, cands, peeked, wrapped, chosen, gotFrom, gotTo
-D == INSTANCE Dispatch WITH Deviations <- {"detectorless_after_peek_gets_raw_conn"}
+CONSTANTS Dev
+VARIABLES conn, phase, idx, cands, peeked, wrapped, chosen, gotFrom, gotTo, missing
+D == INSTANCE Dispatch WITH Deviations <- {Dev}
 Tab == << [proto |-> "tcp", ip |-> "", port |-> 80,
            svcs |-> << [name |-> "dB", det |-> <<"B">>], [name |-> "n1", det |-> <<>>] >>] >>
-C == [proto |-> "tcp", ip |-> "10.0.0.1", port |-> 80, head |-> <<"A", "x">>, pad |-> 0, r |-> 1]
+\* (for peek_tail_dropped: the whole 2-byte stream is peeked, n1 reads with a 1-byte buffer)
+C == [proto |-> "tcp", ip |-> "10.0.0.1", port |-> 80, head |-> <<"A", "x">>, pad |-> 0, r |-> IF Dev = "peek_tail_dropped" THEN 9999 ELSE 1, rs |-> 1]
 Init == /\ phase = "idle" /\ conn = C /\ idx = 0 /\ cands = <<>> /\ peeked = -1 /\ wrapped = FALSE
-        /\ chosen = "none" /\ gotFrom = 0 /\ gotTo = 0
+        /\ chosen = "none" /\ gotFrom = 0 /\ gotTo = 0 /\ missing = 0
 Next == \/ (phase = "idle" /\ D!Accept(Tab, C))
         \/ (phase \in {"scanning", "handling"} /\ ~D!Done /\ (D!Peek \/ D!ScanStep \/ D!SvcRead))
-Spec == Init /\ [][Next]_<<conn, phase, idx, cands, peeked, wrapped, chosen, gotFrom, gotTo>>
+Spec == Init /\ [][Next]_<<conn, phase, idx, cands, peeked, wrapped, chosen, gotFrom, gotTo, missing>>
 Inv == (phase # "idle") => (D!FirstInOrder /\ D!StreamIntact /\ D!NobodyIfNone)
 =============================================================================
